@@ -177,7 +177,8 @@ Inductive srow :=
 | REnum (file en : string)
 | REnumVal (en name : string) (num : Z)
 | RSvc (file svc : string) (msgsvc : bool)
-| RMethod (svc name input output : string) (cs ss : bool).
+| RMethod (svc name input output : string) (cs ss : bool)
+| ROpt (owner : string) (num wt : N) (hex : string).
 
 #[export] Instance EqDec_srow : EqDec srow.
 Proof. intros x y. unfold EqDec in *. decide equality; apply eq_dec. Defined.
@@ -193,25 +194,37 @@ Definition kind_name (k : N) : string :=
 Definition field_type_text (f : field) : string :=
   if N.eqb (f_kind f) 11 || N.eqb (f_kind f) 14 then f_type f else kind_name (f_kind f).
 
-Definition msg_rows (fname : string) (m : message) : list srow :=
+(** options of one declaration, in the order the translator sorts them (by number); [agg] lists
+    per kind of declaration the numbers of message-valued options, compared by presence only *)
+Definition opt_rows (agg : list (string * N)) (kind owner : string) (os : list opt) : list srow :=
+  map (fun o => ROpt (kind ++ " " ++ owner) (o_num o) (o_wt o)
+                 (if existsb (fun p => eqb (fst p) kind && N.eqb (snd p) (o_num o)) agg
+                  then EmptyString else o_hex o)) os.
+
+Definition msg_rows (agg : list (string * N)) (fname : string) (m : message) : list srow :=
   RMsg fname (m_full m)
   :: map (RSigner (m_full m)) (m_signers m)
-  ++ map (fun f => RField (m_full m) (f_name f) (f_num f) (field_type_text f) (N.eqb (f_label f) 3)) (m_fields m).
+  ++ opt_rows agg "msg" (m_full m) (m_opts m)
+  ++ flat_map (fun f => RField (m_full m) (f_name f) (f_num f) (field_type_text f) (N.eqb (f_label f) 3)
+                        :: opt_rows agg "field" (m_full m ++ "." ++ f_name f) (f_opts f)) (m_fields m).
 
-Definition enum_rows (fname : string) (e : enum) : list srow :=
-  REnum fname (e_full e) :: map (fun v => REnumVal (e_full e) (ev_name v) (ev_num v)) (e_values e).
+Definition enum_rows (agg : list (string * N)) (fname : string) (e : enum) : list srow :=
+  REnum fname (e_full e) :: opt_rows agg "enum" (e_full e) (e_opts e)
+  ++ flat_map (fun v => REnumVal (e_full e) (ev_name v) (ev_num v)
+                        :: opt_rows agg "enumval" (e_full e ++ "." ++ ev_name v) (ev_opts v)) (e_values e).
 
-Definition svc_rows (fname : string) (s : service) : list srow :=
-  RSvc fname (s_full s) (is_msg_service s)
-  :: map (fun md => RMethod (s_full s) (md_name md) (md_in md) (md_out md) (md_cs md) (md_ss md)) (s_methods s).
+Definition svc_rows (agg : list (string * N)) (fname : string) (s : service) : list srow :=
+  RSvc fname (s_full s) (is_msg_service s) :: opt_rows agg "svc" (s_full s) (s_opts s)
+  ++ flat_map (fun md => RMethod (s_full s) (md_name md) (md_in md) (md_out md) (md_cs md) (md_ss md)
+                         :: opt_rows agg "method" (s_full s ++ "." ++ md_name md) (md_opts md)) (s_methods s).
 
-Definition file_rows (f : file) : list srow :=
+Definition file_rows (agg : list (string * N)) (f : file) : list srow :=
   RFile (fl_name f) (fl_pkg f)
-  :: flat_map (msg_rows (fl_name f)) (fl_msgs f)
-  ++ flat_map (enum_rows (fl_name f)) (fl_enums f)
-  ++ flat_map (svc_rows (fl_name f)) (fl_services f).
+  :: flat_map (msg_rows agg (fl_name f)) (fl_msgs f)
+  ++ flat_map (enum_rows agg (fl_name f)) (fl_enums f)
+  ++ flat_map (svc_rows agg (fl_name f)) (fl_services f).
 
-Definition desc_rows (fs : list file) : list srow := flat_map file_rows fs.
+Definition desc_rows (agg : list (string * N)) (fs : list file) : list srow := flat_map (file_rows agg) fs.
 
 (** ** The gRPC service descriptors of the generated Go code ([grpc.ServiceDesc]): service name,
     the .proto file named in its metadata, and per method (name, request type the handler
